@@ -48,11 +48,11 @@ def judgeMisc (op : String) (out : List String) : P Bool := do
   | "g1_endo" =>
     -- (x, y) ↦ (βx, y) must act as [λ] on the order-r subgroup (inputs are subgroup points)
     let a ← curveG1.rdJ; let _ ← next
-    curveG1.expectJ op (Pt.smul lambdaG1 (Pt.ofJac a)) out; pure true
+    curveG1.expectJ op (Pt.smulFast lambdaG1 (Pt.ofJac a)) out; pure true
   | "g2_frob" =>
     let a ← curveG2.rdJ; let k ← nextNat; let _ ← next
     if k % 4 == 0 then curveG2.expectJ op (Pt.ofJac a) out
-    else if k % 4 == 1 then curveG2.expectJ op (Pt.smul qModR (Pt.ofJac a)) out
+    else if k % 4 == 1 then curveG2.expectJ op (Pt.smulFast qModR (Pt.ofJac a)) out
     else pure ()
     pure true
   | "wnaf" =>
